@@ -23,7 +23,7 @@ IsEvent(e) == l <= Len(Rec) /\ Rec[l].ev = e /\ l' = l + 1
 E == Rec[l]
 
 NoCfg == [cap |-> Unb, strat |-> "restart", stream |-> FALSE, tmo |-> 0, failto |-> FALSE, owning |-> FALSE,
-          sscr |-> <<>>, pscr |-> <<>>, fscr |-> <<>>, ty |-> "0"]
+          sscr |-> <<>>, pscr |-> <<>>, fscr |-> <<>>, ty |-> "0", items0 |-> 0, ended0 |-> FALSE, iscr |-> <<>>]
 OpOf(r) == [op |-> r.op, h |-> r.h, nh |-> r.nh, a |-> r.a, scr |-> r.scr, d |-> r.d, to |-> r.to,
             ty |-> r.ty, nh2 |-> r.nh2,
             cfg |-> IF "cfg" \in DOMAIN r THEN r.cfg ELSE NoCfg]
@@ -118,8 +118,24 @@ T_Cb == /\ IsEvent("cb")
                      /\ G("cb.se", act[a].pc \in {"started", "rs_started"} /\ ScriptDone(a) /\ act[a].sdl < 0)
                      /\ RunLoop(a)
                 [] E.name = "pb" ->
-                     /\ G("cb.pb", \/ act[a].pc = "dequeued" /\ act[a].curp.k \in {"stop", "restart"}
-                                   \/ act[a].pc = "idle" /\ act[a].mq = <<>> /\ ~ChanOpen(a))
+                     IF act[a].stream
+                     THEN \* stopped() of a stream-attached actor begins right after finished() returned (one spec step)
+                          /\ G("cb.pb.stream", act[a].pc = "stopping" /\ act[a].ip = 1 /\ Len(hst.cb[a]) >= 2
+                                                /\ hst.cb[a][Len(hst.cb[a])][1] = "pb" /\ hst.cb[a][Len(hst.cb[a]) - 1][1] = "fe"
+                                                /\ ~act[a].pbseen)
+                          /\ act' = [act EXCEPT ![a].pbseen = TRUE] /\ UNCHANGED <<hnd, cli, rsp, tmr, reg, now, hst, cur, yl>>
+                     ELSE /\ G("cb.pb", \/ act[a].pc = "dequeued" /\ act[a].curp.k \in {"stop", "restart"}
+                                        \/ act[a].pc = "idle" /\ act[a].mq = <<>> /\ ~ChanOpen(a))
+                          /\ RunLoop(a)
+                [] E.name = "fb" ->
+                     \* stop taken, mailbox closed, or stream exhausted: any of them, whichever the real select! saw
+                     /\ G("cb.fb", act[a].stream /\ (\/ act[a].pc = "dequeued" /\ act[a].curp.k = "stop"
+                                                     \/ act[a].pc = "idle" /\ act[a].mq = <<>> /\ ~ChanOpen(a)
+                                                     \/ act[a].pc = "idle" /\ act[a].sq.ready = 0 /\ act[a].sq.ended))
+                     /\ cur = a /\ cur' = cur /\ yl' = FALSE
+                     /\ (StopTaken(a) \/ MailboxClosed(a) \/ StreamDone(a))
+                [] E.name = "fe" ->
+                     /\ G("cb.fe", act[a].pc = "finishing" /\ ScriptDone(a) /\ act[a].sdl < 0)
                      /\ RunLoop(a)
                 [] E.name = "pe" ->
                      /\ G("cb.pe", act[a].pc \in {"stopping", "rs_stopped"} /\ ScriptDone(a) /\ act[a].sdl < 0)
@@ -204,6 +220,7 @@ T_Quiescent == /\ IsEvent("quiescent")
 \* steps of the running task that no harness code can observe
 IsSilentLoop(a) ==
   \/ act[a].pc = "idle" /\ act[a].mq # <<>>                                   \* Dequeue
+  \/ act[a].pc = "idle" /\ act[a].stream /\ act[a].sq.ready > 0                \* StreamItem
   \/ act[a].pc = "dequeued" /\ act[a].curp.k = "task" /\ act[a].curp.rs = "ping"   \* PingHandled
   \/ act[a].pc = "dequeued" /\ act[a].curp.k = "restart" /\ (act[a].strat = "none" \/ act[a].stream)
   \/ act[a].pc \in {"stopped", "notified"}                                  \* Notify, Exit
